@@ -789,8 +789,14 @@ def argsort(a, *args, **kw):
             return -1
         if k == 1:
             return 1
+        # the order of tied keys is unspecified but a deterministic function of the input: key the free choice by the tied pair
+        ka = a.key() if isinstance(a, S) else repr(a)
+        kb = b.key() if isinstance(b, S) else repr(b)
+        import zlib
+        tag = zlib.crc32(repr((ka, kb, i < j)).encode()) & 0xffffff
         core.CTX.tie_count = getattr(core.CTX, 'tie_count', 0) + 1
-        return -1 if bool(core.CTX.var('tie!%d' % core.CTX.tie_count) >= 0) else 1
+        r = -1 if bool(core.CTX.var('tie!%06x' % tag) >= 0) else 1
+        return r if i < j else -r
     idx = sorted(range(len(l)), key=functools.cmp_to_key(cmp))
     return ndarray(_np.array(idx, dtype=_np.int64), _raw=True)
 
